@@ -90,12 +90,26 @@ pub fn realistic_payload_with(codec: u8, size: usize, sync: bool, tag: u64, inba
         return out;
     }
     // VP9: the frame header says key frame / inter frame independently of the sync flag the caller passes
+    // (two header spellings: the uncompressed header of the VP9 specification, and the form muxide's own VP9 helpers read -
+    // sync code first, then a byte with profile / show_existing_frame / frame_type)
     if codec % 4 == 3 && size % 8 == 5 {
-        if !sync {
-            out.extend_from_slice(&[0x82, 0x49, 0x83, 0x42, 0x00, 0x27, 0xf0, 0x1d, 0xf6]);
+        if (tag >> 20) & 1 == 0 {
+            if !sync {
+                out.extend_from_slice(&[0x82, 0x49, 0x83, 0x42, 0x00, 0x27, 0xf0, 0x1d, 0xf6]);
+            } else {
+                out.push(0x86);
+            }
         } else {
-            out.push(0x86);
+            // key frame header on a sample submitted as non-sync; inter frame / show_existing_frame on one submitted as sync
+            let byte3 = if !sync { 0x00 } else if (tag >> 21) & 1 == 0 { 0x10 } else { 0x20 };
+            out.extend_from_slice(&[0x49, 0x83, 0x42, byte3 | ((tag >> 16) as u8 & 0xc0), 0x27, 0xf0]);
         }
+        out.extend_from_slice(&body);
+        return out;
+    }
+    if codec % 4 == 3 && size % 8 == 6 {
+        // muxide's spelling with the frame type agreeing with the sync flag
+        out.extend_from_slice(&[0x49, 0x83, 0x42, if sync { 0x00 } else { 0x10 }, 0x27, 0xf0]);
         out.extend_from_slice(&body);
         return out;
     }
